@@ -150,7 +150,15 @@ func (commander *Commander) exec(ctx context.Context, parameters Parameters, scr
 			log = log.WithIdempotencyKey(parameters.IdempotencyKey)
 		}
 
-		return executionContext.AppendLog(ctx, log)
+		chainedLog, done, err := executionContext.AppendLog(ctx, log)
+		if err != nil {
+			return nil, nil, err
+		}
+		// the reservations and locks taken above are released when this function
+		// returns: they must outlive the persistence of the log
+		<-done
+
+		return chainedLog, done, nil
 	})
 }
 
